@@ -270,28 +270,47 @@ def coerceFields (env : Env) (ctx : Ctx) (schema : Val) (rs : RSchema) : List Ke
 
 /-! ### 7. containers -/
 
-/-- `value_type(result)` for mappings: the result is a plain dict again -/
+/-- the child validator of `__normalize_mapping_per_keysrules`: the keys as a document
+    `{k: k}`, normalized against `{k: keysrules}`; returns the normalized key document and
+    the child's errors (index crumb removed) -/
+def keysrulesChild (recN : RecN) (ctx : Ctx) (m : List (Key × Val)) (f : Key) (c : Val) (sub : List (Key × Val)) :
+    M (List (Key × Val) × List Err) :=
+  match recN (ctx.child (.dict m) {} (some f) [f, kS "keysrules"])
+          (.dict ((Val.dkeys sub).map (fun k => (k, c)))) ((Val.dkeys sub).map (fun k => (k, k.toVal))) with
+  | .ok (res, cerrs) => .ok (res, dropSpL ctx.schemaPath.length [2] cerrs)
+  | .error e => .error e
+
+/-- what `for k in result: …` decides for one key: `none` = the key stays; `some nk` = its value moves to `nk` -/
+def keyMove (kv : Key × Val) : M (Option Key) :=
+  if Val.pyEq kv.1.toVal kv.2 then .ok none
+  else
+    match kv.2.toKey? with
+    | some nk => .ok (some nk)
+    | none =>
+      if kv.2.hashable then .error (.oracle "coerced key outside the key universe")
+      else raisePy "TypeError" "__normalize_mapping_per_keysrules"
+
+/-- one step of the loop on the (copied) nested mapping -/
+def renameKeyStep (acc : List (Key × Val)) (kv : Key × Val) : M (List (Key × Val)) :=
+  match keyMove kv with
+  | .error e => .error e
+  | .ok none => .ok acc
+  | .ok (some nk) =>
+    match Val.dlookup acc kv.1 with
+    | none => raisePy "KeyError" "__normalize_mapping_per_keysrules"
+    | some v =>
+      if Val.dhas acc nk then .ok (Val.dset acc nk v)
+      else .ok (Val.ddel (Val.dset acc nk v) kv.1)
+
 def keysrulesPass (recN : RecN) (ctx : Ctx) (s : NState) (f : Key) (c : Val) (sub : List (Key × Val)) :
-    M NState := do
-  let keys := Val.dkeys sub
-  let cctx := ctx.child (.dict s.m) {} (some f) [f, kS "keysrules"]
-  let (res, cerrs) ← recN cctx (.dict (keys.map (fun k => (k, c)))) (keys.map (fun k => (k, k.toVal)))
-  let errs := s.errs ++ dropSpL ctx.schemaPath.length [2] cerrs
-  -- `for k in result: …` on a copy of the nested mapping (after the repair of F12)
-  let sub' ← res.foldlM (fun (acc : List (Key × Val)) (kv : Key × Val) => do
-      if Val.pyEq kv.1.toVal kv.2 then pure acc
-      else
-        match kv.2.toKey? with
-        | none =>
-          if kv.2.hashable then .error (.oracle "coerced key outside the key universe")
-          else raisePy "TypeError" "__normalize_mapping_per_keysrules"
-        | some nk =>
-          match Val.dlookup acc kv.1 with
-          | none => raisePy "KeyError" "__normalize_mapping_per_keysrules"
-          | some v =>
-            if Val.dhas acc nk then pure (Val.dset acc nk v)
-            else pure (Val.ddel (Val.dset acc nk v) kv.1)) sub
-  pure { m := Val.dset s.m f (.dict sub'), errs }
+    M NState :=
+  match keysrulesChild recN ctx s.m f c sub with
+  | .error e => .error e
+  | .ok (res, cerrs) =>
+    -- `for k in result: …` on a copy of the nested mapping (after the repair of F12)
+    match res.foldlM renameKeyStep sub with
+    | .error e => .error e
+    | .ok sub' => .ok { m := Val.dset s.m f (.dict sub'), errs := s.errs ++ cerrs }
 
 def valuesrulesPass (recN : RecN) (ctx : Ctx) (s : NState) (f : Key) (c : Val) (sub : List (Key × Val)) :
     M NState := do
